@@ -14,5 +14,6 @@ export GOFLAGS=-mod=mod GOPROXY=off GOSUMDB=off GOTOOLCHAIN=local; unset GOWORK
 go build ./... 2>&1 | head -3
 mkdir -p /tmp/tryseed_out; cp /verif/known_findings.json /tmp/tryseed_out/
 cd /verif
+bin/mscheck -all -verif /tmp/tryseed_out 2>&1 | grep "^ALL summary" | cut -c1-200
 for p in "$@"; do bin/mscheck -prop $p -verif /tmp/tryseed_out 2>&1 | grep -E "^  (VIOLATED|UNDECIDED)|tier=" | cut -c1-${W:-300}; done
 cd /repo && git checkout -- . && git clean -fdq -e '*.orig' && find . -name '*.orig' -delete && git status --short | head -3
